@@ -19,7 +19,14 @@ SD = os.path.join(VERIF, os.environ.get("VERIF_PRESERVING_DIR", "seeded_preservi
 
 
 def sh(cmd, **kw):
-    return subprocess.run(cmd, shell=True, capture_output=True, text=True, **kw)
+    try:
+        return subprocess.run(cmd, shell=True, capture_output=True, text=True, timeout=1500, **kw)
+    except subprocess.TimeoutExpired as ex:
+        class R(object):
+            returncode = 124
+            stdout = "TIMEOUT after 1500 s\n"
+            stderr = ""
+        return R()
 
 
 def claimed():
